@@ -35,6 +35,8 @@ codec rule (C05 a, b) is included because a fixed Int is rendered by the field's
 
 Round 6: no fabricated parse context (k['raw']) for user callables; an escaped text inserted as
 a literal; parked size resolvers are scanned.
+Round 7: includes the struct-block rule of C03 (the pattern of a fixed value is what the field's own
+pack emits; the generated unpack must decode it with the field's own endianness).
 """
 import ast
 
